@@ -25,9 +25,14 @@ from .storage import METAS, meta_name, diff, _Blocked
 
 ALIASES = {'AbortFailed': 'Abort', 'AbortVoted': 'Abort', 'CheckCurrentQ': 'CheckCurrent', 'WrongQ': 'Wrong',
            'NewOidQ': 'NewOid', 'PackQ': 'Pack', 'PushQ': 'Push', 'PopQ': 'Pop'}
-KINDS = {'file': 'file', 'mapping': 'mapping', 'fileblob': 'file'}      # concrete storage kind -> kind of the model
-AS_CODE = dict(TidFromChangesOnly=True, UndoUncreates=True, OidProbeByLoad=True)
-REPAIRED = dict(TidFromChangesOnly=False, UndoUncreates=False, OidProbeByLoad=False)
+# concrete storage kind -> kind of the model ('temp': the demo storage creates its own changes, a MappingStorage)
+KINDS = {'file': 'file', 'mapping': 'mapping', 'fileblob': 'file', 'temp': 'mapping'}
+AS_CODE = dict(TidFromChangesOnly=True, UndoUncreates=True, OidProbeByLoad=True, PackFlagMissing=True)
+REPAIRED = dict(TidFromChangesOnly=False, UndoUncreates=False, OidProbeByLoad=False, PackFlagMissing=False)
+
+
+class ReplayError(Exception):
+    """The replayer itself could not proceed (machinery failure, never a verdict)."""
 
 
 class DemoReplayer:
@@ -152,7 +157,7 @@ class DemoReplayer:
         old_handler = signal.signal(signal.SIGALRM, _blocked)
         signal.setitimer(signal.ITIMER_REAL, self.opts.get('step_timeout', 8))
         try:
-            if action == 'Init':
+            if action in ('Init', 'Skip'):
                 pass
             elif action == 'Begin':
                 c, m, clk = args
@@ -195,12 +200,12 @@ class DemoReplayer:
                 elif call == 'checkCurrent':
                     st.checkCurrentSerialInTransaction(p64(0), z64, other)
             elif action == 'Pack':
-                sec, gc = args
+                sec, g = args
                 from ZODB.serialize import referencesf
-                if not gc and self.calls % 2:
-                    st.pack(clock.T0 + sec + 0.5, referencesf)              # gc=None takes the same path
+                if str(g) == 'none':
+                    st.pack(clock.T0 + sec + 0.5, referencesf)
                 else:
-                    st.pack(clock.T0 + sec + 0.5, referencesf, gc=bool(gc))
+                    st.pack(clock.T0 + sec + 0.5, referencesf, gc=(str(g) == 'true'))
             elif action == 'NewOid':
                 st._next_oid = int(args[0])          # instance state, wherever earlier calls / the random draw left it
                 oid = st.new_oid()
@@ -209,13 +214,14 @@ class DemoReplayer:
             elif action == 'Push':
                 from ZODB.DemoStorage import DemoStorage
                 self.snaps.append(self.snapshot(len(self.raw) - 1))
-                new = self._new_raw(self.ckind)
-                if len(self.stack) == 1:
-                    top = DemoStorage(base=st, changes=new)
+                if self.ckind == 'temp':
+                    top = DemoStorage(base=st) if len(self.stack) == 1 else st.push()
+                    new = top.changes
                 else:
-                    top = st.push(changes=new)
-                if top.base is not st or top.changes is not new:
-                    raise RuntimeError('push did not stack the storages')
+                    new = self._new_raw(self.ckind)
+                    top = DemoStorage(base=st, changes=new) if len(self.stack) == 1 else st.push(changes=new)
+                if top.base is not st or top.changes is not new or new in self.raw:
+                    raise ReplayError('push did not stack the storages')
                 self.raw.append(new)
                 self.stack.append(top)
                 self.issued.append(set())
@@ -228,7 +234,9 @@ class DemoReplayer:
                 self.snaps.pop()
                 self.issued.pop()
             else:
-                raise RuntimeError('replayer does not know action %s' % action)
+                raise ReplayError('replayer does not know action %s' % action)
+        except ReplayError:
+            raise
         except E.ReadConflictError:
             got = 'ReadConflictError'
         except E.ConflictError:
@@ -243,8 +251,6 @@ class DemoReplayer:
             got = type(ex).__name__
         except _Blocked:
             got = 'BLOCKED (call did not return within the step timeout)'
-        except RuntimeError:
-            raise
         except Exception as ex:            # anything else the real call raises is an outcome, not a crash
             got = type(ex).__name__
             self.last_exc = repr(ex)[:200]
@@ -252,6 +258,8 @@ class DemoReplayer:
             signal.setitimer(signal.ITIMER_REAL, 0)
             signal.signal(signal.SIGALRM, old_handler)
         out = []
+        if action == 'Skip':
+            return out            # no call was made (scripted scenarios: the rest of an aborted transaction)
         if want in ('resolved', 'nothing-freed', 'redundant', 'empty', 'same-time'):
             want = 'ok'           # not distinguishable from the call's return value; the table comparison decides
         if action == 'Pack' and got == 'POSKeyError':
@@ -265,8 +273,10 @@ class DemoReplayer:
         return out
 
     def _monitor_oid(self, oid):
-        """new ids never collide: new for this demo storage, and absent from every layer's records."""
+        """What the real storages say about the id just handed out (the verdict is TLC's `collides`; for an id
+        outside the model's universe - a random draw - there is nothing to collide with: checked here)."""
         mine = self.issued[-1]
+        self.monitor = []
         if oid in mine:
             self.monitor.append('new_oid returned %s twice' % oid.hex())
         mine.add(oid)
@@ -413,12 +423,12 @@ class DemoReplayer:
 # ---------------------------------------------------------------------------
 # configurations (one source of truth for TLC and for the replayer)
 
-def consts(bkind, ckind, NOid=2, AtomVals=('v1', 'v2'), Metas=('m0',), MaxBase=2, MaxTxn=3, MaxRecs=2, MaxClock=2,
+def consts(bkind, ckind, NOid=2, AtomVals=('v1', 'v2'), RefSets='NoRefs', Metas=('m0',), MaxBase=2, MaxTxn=3, MaxRecs=2, MaxClock=2,
            K=16, Cls='MCCls', Client=('c1',), MaxUndo=2, MaxLayers=2, MaxNewOid=2, MaxPack=1, PrintObs=False,
            mode=None):
     if K <= MaxBase + MaxTxn + 2:
         K = 64
-    c = dict(BaseKind=bkind, ChangesKind=ckind, NOid=NOid, AtomVals=tuple(AtomVals), Metas=tuple(Metas),
+    c = dict(BaseKind=bkind, ChangesKind=ckind, NOid=NOid, AtomVals=tuple(AtomVals), RefSets=RefSets, Metas=tuple(Metas),
              MaxBase=MaxBase, MaxTxn=MaxTxn, MaxRecs=MaxRecs, MaxClock=MaxClock, K=K, Cls=Cls, Client=tuple(Client),
              MaxUndo=MaxUndo, MaxLayers=MaxLayers, MaxNewOid=MaxNewOid, MaxPack=MaxPack, PrintObs=PrintObs)
     c.update(AS_CODE if mode is None else mode)
@@ -438,12 +448,13 @@ def tla_consts(c):
     def b(x):
         return 'TRUE' if x else 'FALSE'
     k = {'BaseKind': '"%s"' % KINDS[c['BaseKind']], 'ChangesKind': '"%s"' % KINDS[c['ChangesKind']], 'NOid': c['NOid'],
-         'AtomVals': s(c['AtomVals']), 'RefSets': '<- NoRefs', 'Metas': s(c['Metas']),
+         'AtomVals': s(c['AtomVals']), 'RefSets': '<- ' + c['RefSets'], 'Metas': s(c['Metas']),
          'Client': '{' + ', '.join(c['Client']) + '}', 'Cls': '<- ' + c['Cls']}
     for n in ('MaxBase', 'MaxTxn', 'MaxRecs', 'MaxClock', 'K', 'MaxUndo', 'MaxLayers', 'MaxNewOid', 'MaxPack'):
         k[n] = c[n]
-    for n in ('PrintObs', 'TidFromChangesOnly', 'UndoUncreates', 'OidProbeByLoad'):
+    for n in ('PrintObs', 'TidFromChangesOnly', 'UndoUncreates', 'OidProbeByLoad', 'PackFlagMissing'):
         k[n] = b(c[n])
+    k['Temporary'] = b(c['ChangesKind'] == 'temp')
     return k
 
 
@@ -478,6 +489,10 @@ def replay_behaviour(job):
             mm = rp.step(a, step['args'], step['state'])
             what = 'outcome'
             real = None
+            res = norm(step['state']['res'])
+            if not mm and name == 'NewOid' and rp.monitor and not res.get('collides'):
+                what = 'monitor'          # cross-check of TLC's verdict against what the real layers hold
+                mm = list(rp.monitor)
             if not mm:
                 what = 'obs'
                 mm, real = rp.compare(step['state']['obs'], layers)
@@ -490,7 +505,6 @@ def replay_behaviour(job):
                 break
             result['steps'] += 1
             actions[name + ('@base' if len(layers) == 1 and name not in ('Push', 'Init') else '')] += 1
-            res = norm(step['state']['res'])
             if len(layers) > 1:
                 result['max_layers'] = max(result['max_layers'], len(layers))
                 if name == 'Finish':
@@ -498,13 +512,19 @@ def replay_behaviour(job):
                 _tags(tags, name, res, layers, real)
             elif name == 'Finish':
                 result['base_txns'] += 1
+            if name == 'NewOid' and res.get('collides'):
+                # the real new_oid returned the id the transcription returns, and TLC says that this id was
+                # issued before or has records in a layer
+                if not any(g['cause'] == 'new_oid-reissues-uncreated-oid' for g in result['genuine']):
+                    result['genuine'].append({'cause': 'new_oid-reissues-uncreated-oid', 'step': i,
+                                              'prefix': result['sig'][:i + 1],
+                                              'detail': ['new_oid() with _next_oid=%d returned oid %d' % (args[0], res['oid'])] + rp.monitor[-2:]})
             dev = norm(step['state']['dev'])
             if dev['cause'] != 'none' and not any(g['cause'] == dev['cause'] for g in result['genuine']):
                 # the real storage answered every query as the transcription does, and TLC says that these
                 # answers are not the answers of one database holding base \o changes
                 result['genuine'].append({'cause': dev['cause'], 'step': i, 'prefix': result['sig'][:i + 1],
                                           'detail': _dev_detail(dev, real, rp, layers)})
-        result['monitor'] = rp.monitor
         result['lower_checks'] = rp.lower_checks
     finally:
         rp.close()
@@ -546,6 +566,13 @@ def _tags(tags, name, res, layers, real):
         tags.add('abort')
 
 
+def _fn(x):
+    """a TLA function as printed by TLC: a dict, or - when its domain is 1..n - a tuple"""
+    if isinstance(x, dict):
+        return sorted(x.items())
+    return list(enumerate(x or (), 1))
+
+
 def _dev_detail(dev, real, rp, layers):
     out = []
     if dev['cause'] == 'tid-order-across-layers':
@@ -554,11 +581,11 @@ def _dev_detail(dev, real, rp, layers):
             '%s=%r' % (t.hex(), rp.tids.model(t)) for t in lasts))
         return out
     for f in ('lb', 'ser'):
-        for q, w in sorted(dict(dev[f] or {}).items())[:3]:
+        for q, w in _fn(dev[f])[:3]:
             out.append('%s(oid %d, tid %d): implementation %r, one database %r' % (
                 {'lb': 'loadBefore', 'ser': 'loadSerial'}[f], q[0], q[1], real[f][q[0]].get(q[1]), w))
     for f in ('cur', 'gt', 'revs'):
-        for o, w in sorted(dict(dev[f] or {}).items())[:2]:
+        for o, w in _fn(dev[f])[:2]:
             out.append('%s(oid %d): implementation %r, one database %r' % (
                 {'cur': 'load', 'gt': 'getTid', 'revs': 'history'}[f], o, real[f].get(o), w))
     return out
